@@ -6,7 +6,7 @@ BASE_OFF = ("cd /repo && /venv/bin/python -m pytest -ra -q -p no:cacheprovider -
             "--continue-on-collection-errors")
 CHECKS = {
  "C20": dict(cat="other", tech="exhaustive static resolution of library references (callee-exists obligations) + native import",
-   text="Every import and module-rooted attribute chain in every file of the package is an obligation resolved against the installed numpy/scipy/h5py/stdlib namespaces and a history table of names that appear/disappear inside the declared range; each module is then imported natively. Exhaustive over the AST, decides the property for the installed versions.",
+   text="Every import and module-rooted attribute chain in every file of the package is an obligation resolved against the installed numpy/scipy/h5py/stdlib namespaces and a history table of names that appear/disappear inside the declared range (module attributes, and methods/keyword arguments of built-in types added after the declared python_requires); each module is then imported natively, the optional-dependency modules included (they must import without the optional dependency). Exhaustive over the AST, decides the property for the installed versions.",
    note="Trusts the installed library namespaces, the hand-written history table and python's ast; dynamic references (computed getattr) and chains on call results are not seen.", ref="§5 C20"),
 }
 PROOF_NOTE = ("Trusted: pyvc's Python semantics (A9), z3/cvc5 (A10), floats as reals (A1), ground axiom schemas for "
@@ -20,10 +20,10 @@ CHECKS["C01"] = dict(cat="proof", tech=TECH,
    text="Contracts on the closed-form z-integrals (they are antiderivatives of ds/dz, n ds/(c dz), tan(theta) by symbolic differentiation), their piecing at z_uniform, the direct/indirect composition, the Snell invariant and direction vectors, the trapezoid grids of the numeric tracer and the launch-angle conversion, for symbolic ice parameters and endpoints; obligations are generated from /repo's current source and discharged by z3 for all inputs.",
    note=PROOF_NOTE + " 'The ray arrives' and the launch-angle clauses rest on the idealised brentq contract (A6); FTC (A3) links antiderivatives to line integrals.", ref="§5 C01")
 CHECKS["C13"] = dict(cat="proof", tech=TECH,
-   text="Contracts on vertex/direction sampling (range + constant Jacobian), particle-type thresholds, box and cylinder exit points, weights, shadow rejection/counting and ListGenerator index arithmetic, for symbolic volumes, vertices, directions and generator state; discharged by z3 from the current source.",
+   text="Contracts on vertex/direction sampling (range + constant Jacobian), particle-type thresholds, box and cylinder exit points, weights, shadow rejection/counting (stated over observable calls and count: every throw draws its own vertex, direction, energy and flavour) and ListGenerator index arithmetic, for symbolic volumes, vertices, directions and generator state; discharged by z3 from the current source.",
    note=PROOF_NOTE + " Uniform/isotropic are stated through constant Jacobians (A3) over idealised RNG draws (A7); direction sign patterns and list lengths are bounded as listed in the evidence.", ref="§5 C13")
 CHECKS["C15"] = dict(cat="proof", tech=TECH,
-   text="Contracts on PREM.density (piecewise shells, scalar = array entries, zero outside) for both shipped tables and on slant_depth (zero iff the chord misses, exit point on the surface, trapezoid sum of density along the chord on a ceil(d/step) grid, dependence only on |q|^2 and q.u), plus normalize's contract and two ghost lemmas; discharged by z3 / Groebner-basis ideal membership from the current source.",
+   text="Contracts on PREM.density (piecewise shells, scalar = array entries, zero outside) for both shipped tables and on slant_depth (zero iff the chord misses, exit point on the surface, trapezoid sum of density along the chord on a ceil(d/step) grid, dependence only on |q|^2 and q.u), plus normalize's contract and two ghost lemmas; discharged by z3 / Groebner-basis ideal membership from the current source; the whole of slant_depth is also compared natively with an independent chord integral for direction vectors of any length (B).",
    note=PROOF_NOTE + " Convergence of the trapezoid rule and monotonic growth with the dip are not decided (N).", ref="§5 C15")
 CHECKS["C14"] = dict(cat="proof", tech=TECH,
    text="Contracts on interaction-type choice, GQRS/CTW inelasticity ranges, shower fractions for every neutrino type and interaction kind (including the secondary retry loop via loop invariants), cross-section positivity/monotonicity/CC+NC=total, interaction lengths, and the Event tree API; obligations generated from the current source and discharged by z3.",
@@ -35,19 +35,19 @@ CHECKS["C02"] = dict(cat="proof", tech=TECH,
    text="Contracts stating that gradient-index paths and tracers read the geometry only through rho, phi and the two depths (dependence-set obligations with the horizontal coordinates withheld), rho/phi contracts with a ghost lemma for translations/rotations, reciprocity of the root problem and of the direct solution, and solution-count/exists clauses; discharged by z3 from the current source.",
    note=PROOF_NOTE + " Root-search determinism (A6); attenuation reciprocity and the layered tracer are N.", ref="§5 C02")
 CHECKS["C03"] = dict(cat="proof", tech=TECH,
-   text="Contracts on Fresnel coefficients (magnitude <= 1, = 1 under total internal reflection), the attenuation factor exp(-|integral|) in (0,1] with integrand ds/L_att(z,|f|), and on the returned polarization vectors (unit, orthogonal, transverse) for all three path classes, with the vertical-emission defect carved out as a known finding; delay/linearity/energy of propagate() are listed as not covered.",
+   text="Contracts on Fresnel coefficients (magnitude <= 1, = 1 under total internal reflection), the attenuation factor exp(-|integral|) in (0,1] with integrand ds/L_att(z,|f|), and on the returned polarization vectors (unit, orthogonal, transverse) for all three path classes, with the vertical-emission defect carved out as a known finding; the propagate() harnesses (same grid delayed by tof, single filtering with force_real, per-component factor) and the horizontal-segment branch of the uniform-path attenuation; uniform-path attenuation over stepped segments and linearity/energy in the polarization vector are bounded native samplings (B).",
    note=PROOF_NOTE + " Known finding D10 (vertical emitted direction) is listed in known_findings.json.", ref="§5 C03")
 CHECKS["C06"] = dict(cat="proof", tech=TECH + "; plus exhaustive static read/write-set obligations over the class ASTs",
-   text="Representation invariant of lazily evaluated objects (a cached value exists only while the defining attributes are structurally unchanged) proved to be established by the constructor and preserved by every public mutating operation of FunctionSignal for symbolic states, read-set of the lazy value, the generic LazyMutableClass/lazy_property contract, index facts of the buffer-extended grid, and static obligations that no ray tracer/path class keeps derived state outside the cache mechanism.",
+   text="Representation invariant of lazily evaluated objects (a cached value exists only while the defining attributes are structurally unchanged) proved to be established by the constructor and preserved by every public mutating operation of FunctionSignal for symbolic states, read-set of the lazy value, the generic LazyMutableClass/lazy_property contract, index facts of the buffer-extended grid, static obligations that no ray tracer/path class keeps derived state outside the cache mechanism, and that FunctionSignal methods write instance state only through its static attributes or the lazy cache.",
    note=PROOF_NOTE + " Component count of the symbolic FunctionSignal state is bounded (B).", ref="§5 C06")
 CHECKS["C04"] = dict(cat="proof", tech=TECH,
    text="Contracts on Signal, EmptySignal and FunctionSignal: construction keeps one value per sample for every pair of array lengths, every operator/copy/re-gridding result is free of aliasing with its operands (heap identities), addition is pointwise with the stated refusals and neutral elements for all type pairs, scaling is element-wise, re-gridding calls np.interp with zero fill / re-evaluates the function; symbolic array lengths and contents.",
    note=PROOF_NOTE + " The interpolation law itself is numpy's assumed contract (A5).", ref="§5 C04")
 CHECKS["C11"] = dict(cat="proof", tech=TECH,
-   text="Contracts on the HDF5 writer against a model of h5py datasets: index-table writes, every per-table writer (rows appended at the old counter, (start, length) recorded for the current event, counters = row counts), the complete option logic of add() (all 192 option/trigger combinations), rejections, and counter recovery in append mode; symbolic counters and event numbers.",
+   text="Contracts on the HDF5 writer against a model of h5py datasets: index-table writes, every per-table writer (rows appended at the old counter, (start, length) recorded for the current event, counters = row counts), the complete option logic of add() (all 192 option/trigger combinations), rejections (including: a trigger write that fails part-way leaves counters equal to table lengths), and counter recovery in append mode; symbolic counters and event numbers.",
    note=PROOF_NOTE + " h5py is a model (A8); metadata encoding helpers are assumed contracts (A11); known finding D9 is listed in known_findings.json.", ref="§5 C11")
 CHECKS["C12"] = dict(cat="proof", tech=TECH,
-   text="Contracts on the chunked EventIterator (inductive step of __next__ over arbitrary states, chunk loading by index entries), HDF5Reader indexing/slicing/iteration, and FileGenerator replay across files and chunk sizes, against a model of the index and data tables.",
+   text="Contracts on the chunked EventIterator (inductive step of __next__ over arbitrary states, chunk loading by index entries), HDF5Reader indexing/slicing/iteration, FileGenerator replay across files and chunk sizes, and continuation of a file in a later append-mode session (counters recovered from the file, rows and thrown count continue), against a model of the index and data tables.",
    note=PROOF_NOTE + " Chunk sizes for _load_data and FileGenerator scenarios are bounded (B); h5py is a model (A8).", ref="§5 C12")
 CHECKS["C19"] = dict(cat="proof", tech=TECH,
    text="Contracts on flatten (induction step against its recursive specification), on Detector/CombinedDetector iteration, length, indexing, +, +=, sum, default trigger with symbolic hit flags, clear, position test with symbolic depth, and keyword routing of build_antennas, executed through the real class machinery.",
@@ -56,11 +56,11 @@ CHECKS["C09"] = dict(cat="proof", tech=TECH,
    text="Representation invariant of the per-hit caches of Antenna and AntennaSystem proved to be established by the constructor and preserved by every query, receive and clear from arbitrary states (so under every history), with the triggered-subsequence, is_hit and clear postconditions; structure of full_waveform (long grid, superposition), single noise master, lead-in grid and front-end composition.",
    note=PROOF_NOTE + " Cache list lengths are bounded (B); known finding D11 (stale cached waveform after a later receive) is listed in known_findings.json.", ref="§5 C09")
 CHECKS["C10"] = dict(cat="proof", tech=TECH,
-   text="Contract on EventKernel.event against fake generator/tracer/antenna/writer components with symbolic weights, viewing angles and model rejections: one receive per ray solution of each accepted particle, ray_paths/polarizations aligned with the received signals, EmptySignal on the delayed grid off-cone, propagate called with the kernel's interpolation setting, trigger forms, events_thrown; plus the interface obligation that every shipped path/tracer class accepts the kernel's keyword set.",
+   text="Contract on EventKernel.event against fake generator/tracer/antenna/writer components with symbolic weights, viewing angles and model rejections: one receive per ray solution of each accepted particle, ray_paths/polarizations aligned with the received signals, EmptySignal on the delayed grid off-cone, propagate called with the kernel's interpolation setting, trigger forms, events_thrown, the weight cut on its own (zero weights included) and every accepted particle traced from its own vertex; plus the interface obligation that every shipped path/tracer class accepts the kernel's keyword set.",
    note=PROOF_NOTE + " The scenario size is bounded (B); third-party components are uninterpreted (A4).", ref="§5 C10")
 CHECKS["C08"] = dict(cat="proof", tech=TECH,
-   text="Contracts on Antenna.apply_response (filtered copy times gains and efficiency, antenna factor exactly for fields, rejections, frame), on the antenna-coordinate transformation (invariance under common rotations about each axis, spherical coordinates of the frame components), dipole gains and AntennaSystem delegation.",
-   note=PROOF_NOTE + " Linearity composes the proved value-independence of the factor with C05's filter linearity (A5); the Butterworth response is N.", ref="§5 C08")
+   text="Contracts on Antenna.apply_response (filtered copy times gains and efficiency, antenna factor exactly for fields, rejections, frame), on the antenna-coordinate transformation (invariance under common rotations about each axis, spherical coordinates of the frame components), dipole gains, what DipoleAntenna.frequency_response asks scipy.signal.freqs (coefficients, signed angular frequencies) and AntennaSystem delegation; antenna-frame geometry and the band-pass shape (Hermitian, unit gain at the centre, half power at the edges) are also sampled natively (B).",
+   note=PROOF_NOTE + " Linearity composes the proved value-independence of the factor with C05's filter linearity (A5); scipy.signal.butter/freqs themselves are library routines (sampled, not proved).", ref="§5 C08")
 CHECKS["C05"] = dict(cat="proof", tech=TECH,
    text="Contracts on Signal.filter_frequencies, Signal._get_filter_response and FunctionSignal._apply_filters, executed over an abstract array algebra: additivity and homogeneity in the values, homogeneity in the response, identity for the unit response, reading the grid only through its length and spacing, the Hermitian-mirrored response under force_real (vectorised and per-frequency paths, the latter by a loop invariant), passivity and absence of wrap-around for a pure delay.",
    note=PROOF_NOTE + " fft/ifft/real/concatenate/prefix are known to the verifier only through the laws listed in pyvc/absarr.py (A5: assumed, cross-checked numerically against numpy/scipy on every run); obligations the solver leaves open are searched natively for a failing input and stay undecided when none is found.", ref="§5 C05")
